@@ -26,6 +26,7 @@ void   verif_out_str(const char *name, const char *s);
 void   verif_note(const char *text);
 void   verif_stop(void);
 void   verif_log_accesses(int on);
+double verif_logged_value(const char *marker, int *found); // number printed right after 'marker' in the latest log message containing it
 long   verif_param(const char *name, long dflt);       // tier-dependent bound chosen by the check driver (recorded in the evidence)
 void   verif_need_module(void);                        // native runs: make sure a Colvars module + stub proxy exist (cvm::error needs them); interpreter: no-op, cvm::error is modelled
 }
